@@ -37,16 +37,18 @@ def taylor_terms(tau, eps_over):
 def trig_case(ctx, PL, drv, rng, name, cb, tier, args=None):
     args = args or G.sample_args(rng, name, cb, tier)
     eb = bool(rng.random() < 0.6)
-    out = G.call(PL, name, args, eb, eb, cb)
+    form = str(rng.choice(["coefficients", "coefficients", "coefficients:explicit", "object"]))    # every output form of generate()
+    out = G.call(PL, name, args, eb, eb and form != "object", cb, return_coef={"coefficients": None, "coefficients:explicit": True, "object": False}[form])
     ctx.count("gen:" + name)
-    ctx.case([name, args, eb, cb], True, {"generator": name, "args": args, "ensure_bounded": eb, "chebyshev_basis": cb, "status": out["status"]})
-    replay = {"generator": name, "args": args, "ensure_bounded": eb, "chebyshev_basis": cb}
+    ctx.count("output-form:" + form)
+    ctx.case([name, args, eb, cb, form], True, {"generator": name, "args": args, "ensure_bounded": eb, "chebyshev_basis": cb, "output_form": form, "status": out["status"]})
+    replay = {"generator": name, "args": args, "ensure_bounded": eb, "chebyshev_basis": cb, "output_form": form, "constructor": out.get("constructor")}
     if out["status"] != "ok":
         ctx.violation("c16:raises:" + name, "generator raised " + out["exc"], replay)
         return
     scale = Fraction(1, 2) if eb else Fraction(1)
     c = [F(float(x)) for x in np.asarray(out["coefs"], dtype=float)]
-    cheb = c if cb else pl(drv.ask("cheb.m2c %s" % rl(c)))
+    cheb = c if (cb or out.get("object_form")) else pl(drv.ask("cheb.m2c %s" % rl(c)))
     tau, eps = F(args["tau"]), F(args["epsilon"])
     n = taylor_terms(tau, eps / 1000)
     line = drv.ask("valid.trig %s %s %s %s %d 40 %s" % ("sin" if name == "sine" else "cos", rs(tau), rs(eps), rs(scale), n, rl(cheb)))
@@ -68,16 +70,25 @@ def trig_case(ctx, PL, drv, rng, name, cb, tier, args=None):
 def inv_case(ctx, PL, drv, rng, cb, tier, args=None):
     args = args or G.sample_args(rng, "invert", cb, tier)
     eb = bool(rng.random() < 0.6)
-    out = G.call(PL, "invert", args, eb, eb, cb)
+    form = str(rng.choice(["coefficients", "coefficients", "coefficients:explicit", "object"]))
+    out = G.call(PL, "invert", args, eb, eb and form != "object", cb, return_coef={"coefficients": None, "coefficients:explicit": True, "object": False}[form])
     ctx.count("gen:invert")
-    ctx.case(["invert", args, eb, cb], True, {"generator": "invert", "args": args, "ensure_bounded": eb, "chebyshev_basis": cb, "status": out["status"]})
-    replay = {"generator": "invert", "args": args, "ensure_bounded": eb, "chebyshev_basis": cb}
+    ctx.count("output-form:" + form)
+    ctx.case(["invert", args, eb, cb, form], True, {"generator": "invert", "args": args, "ensure_bounded": eb, "chebyshev_basis": cb, "output_form": form, "status": out["status"]})
+    replay = {"generator": "invert", "args": args, "ensure_bounded": eb, "chebyshev_basis": cb, "output_form": form, "constructor": out.get("constructor")}
     if out["status"] != "ok":
         ctx.violation("c16:raises:invert", "generator raised " + out["exc"], replay)
         return
-    scale = F(out["scale"]) if eb else Fraction(1)
+    if eb and form == "object":       # the object comes without its scale: ask for it with the same arguments
+        sib = G.call(PL, "invert", args, True, True, True)
+        if sib["status"] != "ok" or sib["scale"] is None:
+            ctx.violation("c16:raises:invert", "sibling call (return_scale=True) failed", replay)
+            return
+        scale = F(sib["scale"])
+    else:
+        scale = F(out["scale"]) if eb else Fraction(1)
     c = [F(float(x)) for x in np.asarray(out["coefs"], dtype=float)]
-    cheb = c if cb else pl(drv.ask("cheb.m2c %s" % rl(c)))
+    cheb = c if (cb or out.get("object_form")) else pl(drv.ask("cheb.m2c %s" % rl(c)))
     kappa, eps = args["kappa"], args["epsilon"]
     b = int(kappa ** 2 * np.log(kappa / eps))
     line = drv.ask("valid.inv %s %s %s %d %s" % (rs(F(kappa)), rs(F(eps)), rs(scale), b, rl(cheb)))
